@@ -40,6 +40,8 @@ def V(name, unit, tier, kind, functions, statement, min_verified, timeout=300):
             "min_verified": min_verified, "timeout": timeout}
 
 
+HM2, RCM = "transports::dtls::handshake", "transports::dtls::record"
+
 PROPS = {}
 
 # =============================================================================== C04
@@ -87,6 +89,13 @@ PROPS["C04"] = {
           bound="12-byte RTCP packet, symbolic content and index", timeout=900),
         K("protect_rtcp∘unprotect_rtcp NULL (12 B)", "c04_rtcp_roundtrip_null_12", "thorough", "bounded",
           ["SrtpContext::protect_rtcp", "SrtpContext::unprotect_rtcp"], "same", bound="12-byte RTCP packet", timeout=900),
+        K("GCM protect layout + protect∘unprotect round trip (2 B payload)", "c04_gcm_protect_layout_and_roundtrip_p2", "thorough", "bounded",
+          ["SrtpContext::protect", "SrtpContext::unprotect", "SrtpContext::build_gcm_nonce"],
+          "output == header image || AEAD-seal(payload) with AAD = header image and nonce = RFC 7714 8.1; unprotect on a second context returns header, payload, and the same index state",
+          bound="12-byte header, 2 payload bytes; aes-gcm substitute", timeout=1500),
+        K("protect_rtcp∘unprotect_rtcp GCM (12 B)", "c04_rtcp_gcm_roundtrip_12", "thorough", "bounded",
+          ["SrtpContext::protect_rtcp", "SrtpContext::unprotect_rtcp", "SrtpContext::build_gcm_rtcp_nonce"],
+          "identity; header in clear; trailer == index word with E bit; index incremented", bound="12-byte RTCP packet; aes-gcm substitute", timeout=1500),
         K("canary: estimate_roc always returns roc", "canary_estimate_roc_always_roc", "quick", "canary", ["SrtpContext::estimate_roc"],
           "false claim, must FAIL", expect="fail"),
     ],
@@ -194,6 +203,11 @@ PROPS["C03"] = {
         K("encrypt_record∘decrypt_record (4 B)", "c03_encrypt_decrypt_roundtrip_4", "quick", "bounded", ["encrypt_record", "decrypt_record", "make_aad"],
           "decrypt(encrypt(p)) == p; wire explicit nonce == seq (a fresh sequence number gives a fresh nonce)",
           bound="plaintext = 4 bytes, symbolic iv/seq/type; aes-gcm substitute", module=DM, timeout=600),
+        K("DtlsRecord::encode layout (4 B payload)", "c03_record_encode_layout_4", "quick", "bounded", ["DtlsRecord::encode"],
+          "type | version | epoch | 48-bit sequence | length | payload, for every field value", bound="payload 4 bytes", module=RCM),
+        K("DtlsRecord::decode fields (17 B)", "c03_record_decode_fields_17", "quick", "bounded", ["DtlsRecord::decode"],
+          "Ok(Some) iff valid type and declared length fits: epoch, 48-bit sequence number, version, payload recovered exactly; Ok(None) iff incomplete; Err iff unknown content type",
+          bound="input 17 bytes, symbolic content (length field symbolic)", module=RCM),
         K("canary: gate rejects every epoch-0 record", "canary_gate_rejects_all_epoch0", "quick", "canary", ["DtlsInner::try_decrypt_record"],
           "false claim, must FAIL", expect="fail", module=DM),
     ],
@@ -321,7 +335,6 @@ PROPS["C16"] = {
 }
 
 # =============================================================================== C07
-HM2, RCM = "transports::dtls::handshake", "transports::dtls::record"
 
 
 def _c07(names, module, fn, what):
